@@ -182,9 +182,20 @@ pub struct ClientSpec {
     /// actors for which this client starts with one strong handle (slot i = i-th entry)
     pub init: Vec<usize>,
     pub ops: Vec<ClientOp>,
-    /// real-thread engine: run this client on a plain OS thread (blocking ops allowed)
+    /// real-thread engine: where this client runs
     #[serde(default)]
-    pub thread: bool,
+    pub mode: ClientMode,
+}
+
+#[derive(Serialize, Deserialize, Clone, Copy, Debug, PartialEq, Default)]
+pub enum ClientMode {
+    /// a tokio task (async ops; blocking ops only with a timeout)
+    #[default]
+    Task,
+    /// a plain OS thread
+    Thread,
+    /// tokio::task::spawn_blocking
+    Pool,
 }
 
 #[derive(Serialize, Deserialize, Clone, Debug, PartialEq)]
